@@ -29,8 +29,9 @@ SCRIPT = r'''#!/bin/sh
 # $ctl/sched: lines "<fault sequence> <key>"; the n-th invocation for a key takes the n-th letter of its
 # sequence (o = succeed, c = fail before writing, p = fail after writing half; o when the sequence has run out)
 ctl="$1"; op="$2"; src="$3"; dst="$4"; dstdir="$5"; key="$6"
-n=$(grep -c -F " $key" "$ctl/log")
-seq=$(grep -F " $key" "$ctl/sched" | head -1 | cut -d' ' -f1)
+# exact match of the key (a cache path "…/0." is a prefix of "…/0.txt": a substring match would mix them up)
+n=$(awk -v k="$key" '{ if (substr($0, length($0) - length(k)) == " " k) c++ } END { print c + 0 }' "$ctl/log")
+seq=$(awk -v k="$key" '{ if (substr($0, length($0) - length(k)) == " " k) { print $1; exit } }' "$ctl/sched")
 fault=$(printf '%s' "$seq" | cut -c$((n+1)))
 [ -z "$fault" ] && fault=o
 echo "$op $fault $key" >> "$ctl/log"
@@ -679,9 +680,15 @@ def state_class_wrong_object(w, k):
         return None
     if not any(st["op"] == "send" and has_fault(st, "p") for st in w.eff[:k - 1]):
         return None
-    if has_fault(w.eff[k - 1], "p"):
-        return None              # the download itself wrote a partial file: not this class
     prev, cur = w.obs[k - 1], w.obs[k]
+    # objects whose OWN download fails after writing half in this step are not of this class
+    st_ = w.eff[k - 1]
+    partial_dl = set()
+    for pth, f in (st_.get("faults") or {}).items():
+        if "p" in f:
+            a_ = w.addr_of(st_["repo"], pth)
+            if a_ is not None:
+                partial_dl.add(a_)
     truth = {}
     for i in (0, 2):
         if i in w.obs[0]["repos"]:
@@ -695,6 +702,8 @@ def state_class_wrong_object(w, k):
             want = truth.get(g, {}).get(addr)
             if want is None or want == b:
                 continue
+            if addr in partial_dl:
+                return None
             stored = prev["st"].get("%d/%s" % (g, addr))
             if stored != b or not (len(b) < len(want) and want.startswith(b)):
                 return None
@@ -846,8 +855,8 @@ def run(chk, replay=None):
     for idx, (nm, sc, w, kinds) in enumerate(pending):
         for (kind, _k), (k, what) in kinds.items():
             klass = klass_of[(idx, (kind, _k))]
-            if klass is None and kind == "wrong-object":
-                klass = state_class_wrong_object(w, k)
+            if kind == "wrong-object":
+                klass = state_class_wrong_object(w, k) or klass
             dist["oracle_failures"][kind] = dist["oracle_failures"].get(kind, 0) + 1
             dist["oracle_failure_classes"][str(klass)] = dist["oracle_failure_classes"].get(str(klass), 0) + 1
             key = (kind, klass)
